@@ -67,7 +67,7 @@ theorem C04_result_complete_state_full_false : ¬ C04_result_complete_state_full
 /-- nothing else is in the result of a state transaction -/
 theorem result_only_states (t t' : Tables) (r : TxResult) (s : SScript) (hw : WF t) (h : runS t s = (t', r, .committed)) :
     r.ctx = [] ∧ r.descrCreated = [] ∧ r.descrUpdated = [] ∧ r.descrDeleted = [] := by
-  obtain ⟨items, _, _, rfl⟩ := runS_committed hw h
+  obtain ⟨items, _, _, rfl, _⟩ := runS_committed hw h
   cases s.kind <;> exact ⟨rfl, rfl, rfl, rfl⟩
 
 /-! ## context state transactions -/
